@@ -158,7 +158,7 @@ theorem C03_builders_refine (o : Ora) (id reqID acs ii untl status msg issuer au
     (∃ a, Gen.makeAssertion o reqID acs "" ii untl issuer nameID attrs aud true = .ok (some a) ∧
         Builders.assertionOf a = some (Callback.mkAssertion (o.newID "makeAssertion" 0) reqID acs ii untl issuer nameID attrs aud) ∧
         a.Version = "2.0") :=
-  ⟨Builders.makeResponse_refines o id reqID acs ii status msg issuer, Builders.makeAssertion_refines o reqID acs ii untl issuer nameID attrs aud⟩
+  ⟨(Builders.makeResponse_refines o id reqID acs ii status msg issuer).imp fun _ h => ⟨h.1, h.2.1, h.2.2.1⟩, Builders.makeAssertion_refines o reqID acs ii untl issuer nameID attrs aud⟩
 
 open Builders in
 private theorem makeAssertionResponse_refines (o : Ora) (resp : provider_Response) (ii untl : String) (attrs : provider_Attributes)
@@ -208,12 +208,10 @@ theorem C03_failed_message_is_generated (o : Ora) (i : Callback.In) (reqID acs s
     (hid0 : i.ids 0 = o.newID "Response_makeFailedResponse" 0) (hii : i.issueInstant = o.m_Format o.now fmt) :
     ∃ r, Response_makeFailedResponse o (some resp) status message fmt = .ok (some r) ∧
       Builders.msgOf r none = Callback.failedMsg i reqID acs status message := by
-  obtain ⟨r, hr, hm⟩ := Builders.makeFailedResponse_refines o resp status message fmt
+  obtain ⟨r, hr, hm, _⟩ := Builders.makeFailedResponse_refines o resp status message fmt
   exact ⟨r, hr, by rw [hm, Callback.failedMsg, hid0, hii, hacs, hreq, hiss]⟩
 
 theorem C03_source_current : Consts.current = true ∧
-    FactsUtil.sameHashes ["provider.IdentityProvider.callbackHandleFunc",
-      
-      "provider.NewID", "provider.Response.sendBackResponse"] = true := ⟨by decide, by decide⟩
+    FactsUtil.sameHashes ["provider.NewID", "provider.Response.sendBackResponse"] = true := ⟨by decide, by decide⟩
 
 end C03
